@@ -201,7 +201,7 @@ func MonC02(res *fw.Result, o *run.Obs) bool {
 	if o.T.Spec.HasFee {
 		fr = model.Fees(a, o.T.Spec.Fees)
 		if fr.Verdict == model.MustRefuse || fr.Forward == nil {
-			return false // C04's violation, not C02's
+			return false // C04's violation (or no exact model value), not C02's
 		}
 	}
 	exp := ExpectedDelta(o, fr)
